@@ -67,6 +67,8 @@ fn propagate<'a, T: Clone>(
             let cur_itm = v[pos].clone();
             // check if this item's position is closer than ours
             if cur_itm.psl < searcher.psl {
+                #[cfg(rsdd_verif)]
+                crate::verif::probe(crate::verif::Probe::TablePropagateSwap);
                 // swap the searcher and this item
                 v[pos] = searcher;
                 searcher = cur_itm;
@@ -105,6 +107,16 @@ where
 {
     /// reserve a robin-hood table capable of holding at least `sz` elements
     pub fn new() -> BackedRobinhoodTable<'a, T> {
+        #[cfg(rsdd_verif)]
+        if let Some(cap) = crate::verif::knob_table_capacity() {
+            return BackedRobinhoodTable {
+                tbl: vec![HashTableElement::default(); cap],
+                alloc: Bump::new(),
+                cap,
+                len: 0,
+                hits: 0,
+            };
+        }
         let v: Vec<HashTableElement<T>> = vec![HashTableElement::default(); DEFAULT_SIZE];
 
         BackedRobinhoodTable {
@@ -133,6 +145,8 @@ where
 
     /// Expands the capacity of the hash table
     pub fn grow(&mut self) {
+        #[cfg(rsdd_verif)]
+        crate::verif::probe(crate::verif::Probe::TableGrow);
         let new_sz = (self.cap + 1).next_power_of_two();
         self.cap = new_sz;
         let old = mem::replace(&mut self.tbl, vec![HashTableElement::default(); new_sz]);
@@ -175,6 +189,10 @@ impl<'a, T: Eq + Hash + Clone> BackedRobinhoodTable<'a, T> {
         elem: T,
         equality_by_hash: bool,
     ) -> &'a T {
+        #[cfg(rsdd_verif)]
+        if self.cap < 4096 && crate::verif::buggify(crate::verif::Site::TableGrowNow) {
+            self.grow();
+        }
         if (self.len + 1) as f64 > (self.cap as f64 * LOAD_FACTOR) {
             self.grow();
         }
@@ -193,6 +211,8 @@ impl<'a, T: Eq + Hash + Clone> BackedRobinhoodTable<'a, T> {
                 if hash == cur_itm.hash {
                     let found: &T = cur_itm.ptr.unwrap();
                     if equality_by_hash || *found == elem {
+                        #[cfg(rsdd_verif)]
+                        crate::verif::probe(crate::verif::Probe::TableHit);
                         self.hits += 1;
                         return found;
                     }
@@ -202,6 +222,8 @@ impl<'a, T: Eq + Hash + Clone> BackedRobinhoodTable<'a, T> {
                 if cur_itm.psl < psl {
                     // elem is not in the table; insert it at pos and propagate
                     // the item that is currently here
+                    #[cfg(rsdd_verif)]
+                    crate::verif::probe(crate::verif::Probe::TableInsertDisplace);
                     self.propagate(cur_itm, pos);
                     let ptr = self.alloc.alloc(elem);
                     let entry = HashTableElement::new(ptr, hash, psl);
@@ -210,9 +232,15 @@ impl<'a, T: Eq + Hash + Clone> BackedRobinhoodTable<'a, T> {
                     return ptr;
                 }
                 psl += 1;
+                #[cfg(rsdd_verif)]
+                if pos + 1 == self.cap {
+                    crate::verif::probe(crate::verif::Probe::TableWrapAround);
+                }
                 pos = (pos + 1) % self.cap; // wrap to the beginning of the array
             } else {
                 // this element is unique, so place it in the current spot
+                #[cfg(rsdd_verif)]
+                crate::verif::probe(crate::verif::Probe::TableInsertEmpty);
                 let ptr = self.alloc.alloc(elem);
                 let entry = HashTableElement::new(ptr, hash, psl);
                 self.len += 1;
